@@ -14,6 +14,9 @@ pub struct Judge {
     pub c03: bool,
     pub c08: bool,
     pub c09: bool,
+    /// stream view of C18: every info line between a go and its bestmove must be a line about
+    /// that go's position (only judged in fault-free sessions with a GUI latency >= 1 ms)
+    pub c18: bool,
 }
 
 /// near-mate / near-stalemate starting points; terminal positions are reached from them by
@@ -116,6 +119,9 @@ pub fn gen_session(rng: &mut Rng, o: &SessionOpts) -> Scenario {
                     None => (Pos::from_fen(*rng.pick(TERMINAL_FENS)).unwrap(), vec![]),
                 }
             }
+        } else if rng.chance(1, 8) && !workload::forced_move_pool().is_empty() {
+            // exactly one legal move: the shortcut every engine is tempted to take
+            (rng.pick(workload::forced_move_pool()).clone(), vec![])
         } else {
             let g = workload::gen_game(rng, 24);
             (g.start, g.moves)
@@ -244,6 +250,18 @@ pub fn judge_session(sc: &Scenario, res: &SimResult, tr: &Trace, j: Judge, acc: 
                     continue;
                 }
                 let bm = bms[0];
+                if j.c18 {
+                    let lines: Vec<String> = c.outs.iter().filter(|o| o.line.starts_with("info")).map(|o| o.line.clone()).collect();
+                    if !lines.is_empty() {
+                        acc.nontrivial.insert(fnv(p.canon_hash(), c.raw.as_bytes()));
+                    }
+                    if let Some((cls, detail)) = crate::sb::check_info_lines(&lines, &p) {
+                        v("C18", format!("C18/stream/{}", cls), format!("between `{}` and its bestmove in {}: {}", c.raw.trim(), p.fen(), detail), acc);
+                    }
+                    if legal.len() == 1 {
+                        acc.count("c18_go_on_forced_move_positions");
+                    }
+                }
                 // ---- C08 timing (virtual time)
                 if let Some(plan) = plan_ms {
                     let plan_ns = (plan.min(10_000_000) as u64) * MS;
@@ -622,5 +640,24 @@ pub fn run_c10_session(seed: u64, run: u64) -> Acc {
     if probes.len() < games.len() && !matches!(res.end, SimEnd::Exit(_)) {
         acc.count("c10_session_cut_short");
     }
+    acc
+}
+
+/// C18 stream view: fault-free timed sessions, several position+go pairs in a row, GUI latency
+/// of at least 1 ms (so that on a correct engine no line of an earlier search can fall into a
+/// later go's window)
+pub fn run_c18_session(seed: u64, run: u64) -> Acc {
+    let mut rng = Rng::new(crate::rng::mix(seed, "C18-session", run));
+    let mut acc = Acc::new();
+    let o = SessionOpts { timed: true, faulty: false, terminal: false, max_games: 4 };
+    let mut sc = gen_session(&mut rng, &o);
+    sc.gui_latency_ns = *rng.pick(&[1 * MS, 2 * MS, 20 * MS]);
+    sc.jitter_max_ns = 0;
+    let res = sa::run(&sc);
+    let tr = sa::extract(&res);
+    acc.virtual_ns += res.virtual_ns;
+    acc.interleavings.insert(sa::interleaving_signature(&res));
+    let j = Judge { c18: true, ..Default::default() };
+    judge_session(&sc, &res, &tr, j, &mut acc, run);
     acc
 }
